@@ -323,3 +323,18 @@ pub assume_specification[ GraphColoredVertices::pick_color ](a: &GraphColoredVer
 pub assume_specification[ GraphColoredVertices::pick_singleton ](a: &GraphColoredVertices) -> (r: GraphColoredVertices);
 pub assume_specification[ GraphColoredVertices::is_singleton ](a: &GraphColoredVertices) -> (r: bool);
 pub assume_specification[ GraphColoredVertices::copy ](a: &GraphColoredVertices, bdd: Bdd) -> (r: GraphColoredVertices);
+// ---- commutativity of the set operations (extensional facts the solver does not find by itself when a commuted operand pair sits INSIDE an
+//      argument of another specification function): used by `broadcast use` in the units whose contracts mention such terms
+pub mod iset_laws {
+use super::*;
+pub broadcast proof fn lemma_iset_intersect_comm(a: ISet<Pt>, b: ISet<Pt>)
+    ensures #[trigger] a.intersect(b) == b.intersect(a)
+{
+    assert(a.intersect(b) =~= b.intersect(a));
+}
+pub broadcast proof fn lemma_iset_union_comm(a: ISet<Pt>, b: ISet<Pt>)
+    ensures #[trigger] a.union(b) == b.union(a)
+{
+    assert(a.union(b) =~= b.union(a));
+}
+} // mod iset_laws
